@@ -28,7 +28,7 @@ def check(ctx):
 
     check_masked_calls(ctx, "C12-h", ["bluebonnet.fluids.oil", "bluebonnet.fluids.fluid"])
 
-    pb = only(run(ctx, OIL + "pressure_bubblepoint_Standing"), "pressure_bubblepoint_Standing").value.nf
+    pb = only(run(ctx, OIL + "pressure_bubblepoint_Standing"), "pressure_bubblepoint_Standing", ctx, "C12-c").value.nf
     fpb = P.func(OIL + "pressure_bubblepoint_Standing")
     PBQ = OIL + "pressure_bubblepoint_Standing"
     pb_atom = nf.fn(PBQ, *[nf.sym(a) for a in ("temperature", "api_gravity", "gas_specific_gravity", "solution_gor_initial")])
@@ -111,7 +111,7 @@ def check(ctx):
             "below the bubble point dRs/dp is a product of positive factors (Rs non-decreasing in pressure)",
             signature="sign", derivative=nf.show(d, 400),
         )
-    bo = only(run(ctx, OIL + "b_o_bubblepoint_Standing"), "b_o_bubblepoint_Standing").value.nf
+    bo = only(run(ctx, OIL + "b_o_bubblepoint_Standing"), "b_o_bubblepoint_Standing", ctx, "C12-d").value.nf
     d = nf.diff(bo, "solution_gor_initial")
     ctx.check(
         positive(d), "C12-d", OIL + "b_o_bubblepoint_Standing:dBo/dRs > 0", P.func(OIL + "b_o_bubblepoint_Standing").where(),
